@@ -385,7 +385,7 @@ func plans(tier string) []mc.Plan {
 }
 
 func init() {
-	mc.Register(&mc.Check{ID: "C19", Plans: plans, Budget: map[string]int{"quick": 60, "thorough": 1500},
+	mc.Register(&mc.Check{ID: "C19", Plans: plans, Budget: map[string]int{"quick": 60, "thorough": 2400},
 		Notes: "C19: Signal and Chan thread programs; fine-grained mode (points before and after every atomic, at every mutex and channel operation); bound -1 = all interleavings."})
 	mc.SelfTestScenarios = append(mc.SelfTestScenarios,
 		sigScenario([]string{"set1", "set2", "get"}),
